@@ -51,7 +51,12 @@ OOV = data.Tag(term=term("call"), value="s0")  # out of vocabulary, but shares i
 
 
 def vocab(k):
-    return [data.Tag(term=term("species"), value="s%d" % i) for i in range(k)]
+    V = [data.Tag(term=term("species"), value="s%d" % i) for i in range(k)]
+    if k == 3:
+        # the third tag of the three-tag vocabulary spells 'name:value' exactly like the first one (soundevent:species:s0) while
+        # being another term and another value: tags are (term, value) pairs, not strings
+        V[2] = data.Tag(term=data.Term(label="soundevent", name="soundevent", definition="collides as a string"), value="species:s0")
+    return V
 
 
 TASKS = {
@@ -158,6 +163,8 @@ def blocks(tier):
             rk = reduced_kinds(task)
             for c in chunk(list(range(len(rk))), 8):
                 out.append({"space": "clips3", "task": task, "k": 2, "n": 3, "tier": tier, "first": c})
+    # three clips with unequal scores (an overall score is the mean of ALL clip scores): tiny alphabet, both sound-event tasks
+    out.append({"space": "events3", "task": "all", "k": 2, "tier": tier})
     # a vocabulary of 300 tags (more classes than a byte can index) with true classes on both sides of 255
     out.append({"space": "bigvocab", "task": "all", "k": BIG_K, "tier": tier})
     for task in ("sound_event_classification", "sound_event_detection"):
@@ -189,6 +196,13 @@ def big_items():
 
 def run_block(block, rec):
     sp, task, k = block["space"], block["task"], block["k"]
+    if sp == "events3":
+        kinds = [[[0], [1.0, 0.0]], [[0], [0.0, 1.0]], [[1], [0.5, 0.25]], [["oov"], [0.25, 0.25]]]
+        for t in ("sound_event_classification", "sound_event_detection"):
+            for a, b, c3 in itertools.product(kinds, repeat=3):
+                rec.add(run_case({"task": t, "k": 2, "clips": [[a], [b], [c3]], "extra": [0, 0]}))
+                rec.add(run_case({"task": t, "k": 2, "clips": [[a, b], [c3], [b]], "extra": [0, 0]}))
+        return
     if sp == "bigvocab":
         items = big_items()
         for t in ("clip_classification", "clip_multilabel_classification"):
@@ -288,6 +302,9 @@ def build(case):
             if task == "sound_event_detection":
                 # distinct sound event objects with identical geometry: matched by overlap, not by identity
                 se_p = data.SoundEvent(uuid=U("sep%d.%d" % (ci, j)), recording=REC, geometry=box(j))
+            elif (ci + j) % 2 == 1:
+                # the prediction side holds its own copy of the sound event (same uuid) to which the model attached a feature
+                se_p = se.model_copy(update={"features": [data.Feature(term=term("snr"), value=3.5)]})
             else:
                 se_p = se
             seas.append(data.SoundEventAnnotation(uuid=U("a%d.%d" % (ci, j)), sound_event=se, tags=[tagobj(t, V) for t in truth]))
